@@ -1,0 +1,7 @@
+//go:build !verif
+
+package ir
+
+// verifYield is a scheduling point used by the verification harness (build tag verif).
+// Without the tag it is an empty function that the compiler inlines away.
+func verifYield() {}
